@@ -400,7 +400,7 @@ def _arb_cases(draw):
                 del triples[draw(st.integers(0, len(triples) - 1))]
             elif c == 1 and triples:
                 triples = triples + [list(pick(draw, triples))]
-    tops = vs + [None, 'zz']
+    tops = vs + [None, 'zz', '']            # '' is falsy but not None: a requested '' is "not a variable", never "use the default"
     epi = []
     for _ in range(draw(st.integers(0, 4))):
         if draw(st.booleans()):
@@ -429,7 +429,10 @@ def _machine(report):
             self.case = {'k': 'hist', 'tree': j, 'model': spec, 'ops': [], 'free': free}
             node = interp.to_node(j)
             if interp.wellformed(node, spec) is None:
-                self.G = _init_graph(self.case, build_model(spec))
+                try:
+                    self.G = _init_graph(self.case, build_model(spec))
+                except Exception:
+                    report(self.case)          # check() repeats the step and files the exception as a violation bucket
 
         def _do(self, op):
             if self.G is None:
